@@ -328,10 +328,27 @@ def run_mode_A(ctx, case, stale=False):
                 else:
                     if not os.path.isdir(job.path):
                         continue
+                    old_sp = dict(D.sps[t])
                     new_sp = dict(D.sps[t])
                     new_sp["r"] = new_sp.get("r", 0) + 1
+                    held = job.document if D.model[t] else None  # noqa: F841  (a reference the program may keep)
                     job.sp["r"] = new_sp["r"]
                     D.sps[t] = new_sp
+                    if new_sp["r"] % 2:
+                        # a new job takes the vacated state point: its document starts empty, whatever the former
+                        # occupant's document objects still hold
+                        ctx.monitor("vacated_id_document_empty")
+                        vac = D.P[h].open_job(copy.deepcopy(old_sp))
+                        vac.init()
+                        seen = model.plain(vac.document())
+                        vac.document["fresh"] = 1
+                        on_disk = model.read_json(vac.fn(model.DOC_FILE))
+                        vac.remove()
+                        if seen != {} or on_disk != {"fresh": 1}:
+                            ctx.violation("new-job-inherits-document-of-former-occupant",
+                                          "a job created at a state point vacated by a re-key does not start with an empty document",
+                                          {"seen": seen, "file_after_first_write": on_disk, "former_document": D.model[t]})
+                            return
             except (KeyError, OSError):
                 if not stale:
                     raise
